@@ -103,6 +103,7 @@ def canonical(spec):
 
 def build_catalog(spec):
     cc = {'lower': str.lower, 'upper': str.upper, 'mixed': str.capitalize}[spec['catcase']]
+    also = [p for p in (spec.get('also') or '').split('+') if p]
     if spec['enc'] == 'names':
         assert not spec['api']
         ints = [cc('int1'), cc('int2')]
@@ -111,7 +112,12 @@ def build_catalog(spec):
                 {'name': cc('int2'), 'class_type': 'sql', 'type': 'data'}]
         if spec['api']:
             ints.append({'name': cc('api1'), 'class_type': 'api', 'type': 'data'})
-        ints.append({'name': cc('proj'), 'class_type': 'project', 'type': 'project'})
+        if 'proj' not in also:
+            ints.append({'name': cc('proj'), 'class_type': 'project', 'type': 'project'})
+    # a project that the caller lists among the data integrations as well (the repository's own join tests do:
+    # integrations=['int1', 'int2', 'proj'] with a model in proj): it stays the project of its models
+    for p in also:
+        ints.append(cc(p) if spec['enc'] == 'names' else {'name': cc(p), 'class_type': 'sql', 'type': 'data'})
     if spec['pm'] == 'list':
         pm = []
         for p, m, ts in MODELS:
@@ -219,6 +225,8 @@ def mechanisms(orig, refs, cat, spec):
         f.add('cat:legacy-dotted-key')
     if spec.get('dncase', 'lower') != 'lower' and spec['dn'] is not None:
         f.add('cat:default-namespace-not-lower')
+    if spec.get('also'):
+        f.add('cat:project-listed-as-integration')
     for w, r, slot, q, role, holder, al in refs:
         if r[0] == 'table' and len(w) >= 3 and w[0].lower() in known and _model_like(w[1:], cat):
             f.add('ref:schema-table-like-model')
@@ -257,6 +265,34 @@ def mechanisms(orig, refs, cat, spec):
                     f.add('ts-join:where-subselect' if field == 'where' else 'ts-join:target-subselect')
         if any(ts_selects.values()) and any(role == 'target' and q == 'q:none' for w, r, slot, q, role, holder, al in refs):
             f.add('dbt:target-without-database')
+        if any(ts_selects.values()) and any(role == 'target' and q != 'q:none' for w, r, slot, q, role, holder, al in refs):
+            # the data side of the time-series join is a select from a name that carries no database
+            for n in walk(orig):
+                if type(n).__name__ == 'Select' and id(n) in ts_selects:
+                    for x in leaves(n.from_table):
+                        if type(x).__name__ == 'Select' and type(x.from_table).__name__ == 'Identifier' \
+                                and qualifier_class(x.from_table.parts, cat) == 'q:none' and not is_ts(x.from_table):
+                            f.add('dbt:inner-without-database')
+    # sub-selects in the clauses of a select whose FROM is (or joins) a native query
+    native = set()
+    for n in walk(orig):
+        if type(n).__name__ == 'Select' and n.from_table is not None \
+                and any(type(x).__name__ == 'NativeQuery' for x in leaves(n.from_table)):
+            native.add(id(n))
+    if native:
+        ctx = R.ref_contexts(orig)
+        for i, role, slot in R.table_refs(orig):
+            for sel, field in ctx.get(id(i), []):
+                if id(sel) in native and field != 'from_table':
+                    f.add('native:outer-subselect')
+    # UPDATE: sub-selects of its WHERE, columns written with a database in front
+    for n in walk(orig):
+        if type(n).__name__ == 'Update' and n.where is not None:
+            if any(type(x).__name__ == 'Select' for x in walk(n.where)):
+                f.add('update:where-subselect')
+            if any(type(x).__name__ == 'Identifier' and qualifier_class(x.parts, cat) != 'q:none' and len(x.parts) > 2
+                   for x in walk(n.where)):
+                f.add('update:qualified-column')
     return sorted(f)
 
 
@@ -282,6 +318,7 @@ def route_failures(orig, steps, pre, cat):
     exp_models = {r for r in exp_reads if r[0] == 'model'}
     exp_tables = {r for r in exp_reads if r[0] == 'table'}
     obs = R.observe(steps, cat)
+    obs, upd_steps = observe_updates(obs, steps, cat)
     obs_reads = {('table', r.place, r.parts) for r in obs.reads}
     out, seen = [], set()
 
@@ -307,6 +344,8 @@ def route_failures(orig, steps, pre, cat):
             f += [h for w, r, _, _, _, h, al in refs if r == m and any((p, a) == (w, al) for _, p, a in obs.strays)]
         if any(e[2][-len(m[2]):] == m[2] for e in extras):
             f.append('fetched-elsewhere')
+        if any(r.step in upd_steps and r.parts[-len(m[2]):] == m[2] for r in obs.reads):
+            f.append('left-in:UpdateToTable')
         add('not-fetched', site, f, f'expected fetch {m} missing; unexpected fetches: {extras[:3]}; tables in '
                                     f'dataframe steps: {obs.strays[:3]}')
     for e in extras:
@@ -335,6 +374,8 @@ def route_failures(orig, steps, pre, cat):
                 f.append('wrong-place')
         if rd and all(r.under_cte for r in rd):
             f.append('in-cte-definition')
+        if rd and all(r.step in upd_steps for r in rd):
+            f.append('in-update-command')
         add('unexpected-fetch', site, f, f'fetch {e} (step {rd[0].step if rd else "?"}) has no counterpart in the '
                                          f'statement; expected {sorted(exp_tables)[:4]}')
     me = sorted(obs.models - exp_models)
@@ -359,7 +400,8 @@ def route_failures(orig, steps, pre, cat):
     for st_, parts, under in obs.kept:
         site, f = origin(written=parts)
         add('qualifier-kept', site if site != '?' else 'column',
-            (f or [qualifier_class(parts, cat)]) + (['in-cte-definition'] if under else []),
+            (f or [qualifier_class(parts, cat)]) + (['in-cte-definition'] if under else [])
+            + (['in-update-command'] if st_ in upd_steps else []),
             f'identifier {parts} in the query of step {st_} still carries the integration')
     for st_, parts, under in obs.foreign:
         add('foreign-column', 'fetch-identifier', ['in-cte-definition'] if under else [], f'identifier {parts} in the query of step {st_} belongs to '
@@ -397,6 +439,33 @@ def route_failures(orig, steps, pre, cat):
             if r not in exp_models:
                 add('prepare-lookup', cn, [], f'{r} not among {sorted(exp_models)[:4]}')
     return out
+
+
+def observe_updates(obs, steps, cat):
+    """R.observe looks at the table of an UPDATE step only.  The command of the step (its WHERE and the values it
+    sets) is what the executor sends to the integration of that table, exactly as the WHERE of a DELETE step: the
+    tables it mentions are read there, and its identifiers are identifiers of a query sent there.
+    -> (Observed with these reads / kept / foreign identifiers added, step numbers of the UPDATE steps)"""
+    known = cat.integrations | cat.projects
+    reads, kept, foreign, nums = list(obs.reads), list(obs.kept), list(obs.foreign), set()
+    for s in R.all_steps(steps):
+        if type(s).__name__ != 'UpdateToTable' or getattr(s, 'update_command', None) is None:
+            continue
+        nums.add(s.step_num)
+        place = R.resolve(s.table.parts, cat)[1]
+        cmd = s.update_command
+        q = [cmd.where, list((cmd.update_columns or {}).values())]
+        tabs = R.table_refs(q)
+        tab_ids = {id(t) for t, _, _ in tabs}
+        for t, _, _ in tabs:
+            reads.append(R.Read(place, tuple(str(p) for p in t.parts), s.step_num, False))
+        for i in R.identifiers(q):
+            if len(i.parts) > 1 and isinstance(i.parts[0], str):
+                if i.parts[0].lower() == place:
+                    kept.append((s.step_num, tuple(str(p) for p in i.parts), False))
+                elif i.parts[0].lower() in known and id(i) not in tab_ids:
+                    foreign.append((s.step_num, tuple(str(p) for p in i.parts), False))
+    return obs._replace(reads=reads, kept=kept, foreign=foreign), nums
 
 
 def normalised(steps, cat):
@@ -441,9 +510,10 @@ def judge(case, col):
     meta = case.get('meta', {})
     tags = list(meta.get('tags', []))
     cat = semantic(spec)
-    cfg = {'dn': str(spec['dn']), 'enc': spec['enc'] + '/' + spec['pm'], 'mode': mode}
+    cfg = {'dn': str(spec['dn']), 'enc': spec['enc'] + '/' + spec['pm'], 'mode': mode, 'also': spec.get('also') or 'none'}
     classes = ['dn:' + str(spec['dn']), 'enc:' + spec['enc'], 'pm:' + spec['pm'], 'catcase:' + spec['catcase'],
-               'mode:' + mode, 'api:' + str(spec['api']), 'dncase:' + spec.get('dncase', 'lower')] + ['tag:' + t for t in tags]
+               'mode:' + mode, 'api:' + str(spec['api']), 'dncase:' + spec.get('dncase', 'lower'), 'also:' + (spec.get('also') or 'none')] \
+        + ['tag:' + t for t in tags]
     try:
         tree = parse_sql(sql, 'mindsdb')
     except Exception as e:
@@ -583,9 +653,13 @@ _CFGS = [(model.Cfg(places=p, always_alias=False, correlated=False, window=False
 @st.composite
 def cases(draw):
     mode = draw(st.sampled_from(['plan', 'plan', 'plan', 'prepared']))
+    # projects that the catalog lists among the data integrations as well (a fourth of the cases)
+    also = draw(st.sampled_from([None] * 9 + ['proj', 'mindsdb', 'mindsdb+proj']))
     if draw(st.integers(0, 3)) > 0:
         c = draw(routing.statements())
         c['mode'] = mode
+        if also:
+            c['catalog']['also'] = also
         return c
     i = draw(st.integers(0, len(_CFGS) - 1))
     cfg, places, api = _CFGS[i]
@@ -595,6 +669,8 @@ def cases(draw):
         spec['api'], spec['enc'] = True, 'dicts'
     if None in places.values() and spec['dn'] is None:
         spec['dn'] = 'mindsdb'
+    if also:
+        spec['also'] = also
     return {'sql': c['sql'], 'catalog': spec, 'mode': mode,
             'meta': {'tags': ['gmodel'] + [t for t in c['meta']['tags'] if t.startswith(('sub:', 'cte', 'setop', 'join:', 'case'))]}}
 
